@@ -23,7 +23,7 @@
 (*   queued  copies on the broadcast queues                                    *)
 (*   sent    direct responses on the transport, relayed: relay packets         *)
 (*   maxmsg  largest serf message of the kind seen in the queues / transport   *)
-(*   dclock  change of the event (query) clock                                 *)
+(*   dclock  change of the event (query) clock (conformance only, no clause)   *)
 EXTENDS Integers, Sequences, FiniteSets, TLC
 
 CONSTANTS Hard,        \* serf.UserEventSizeLimit = 9216
@@ -51,12 +51,16 @@ RelayTried(v) == v.k >= 1 /\ v.mem + 1 >= v.k + 1
 Expected(v, sz, rl) ==
   CASE v.a = "event" ->
          LET acc == EventWithin(v.cfg, sz.raw, sz.enc) n == IF acc THEN 1 ELSE 0
+             \* the Lamport time is taken (Increment) after the raw-size checks and before the encoded-size
+             \* checks (/repo 82cb47c): an event rejected for its encoded size burns a time
+             rawok == sz.raw <= v.cfg /\ sz.raw <= Hard
          IN  [raw |-> sz.raw, enc |-> sz.enc, renc |-> 0, err |-> ~acc, deliv |-> n, queued |-> n,
-              sent |-> 0, relayed |-> 0, maxmsg |-> IF acc THEN sz.enc ELSE 0, dclock |-> n]
+              sent |-> 0, relayed |-> 0, maxmsg |-> IF acc THEN sz.enc ELSE 0, dclock |-> IF rawok THEN 1 ELSE 0]
     [] v.a = "query" ->
          LET acc == QueryWithin(v.cfg, sz.enc) n == IF acc THEN 1 ELSE 0
+             \* the query clock is advanced before the size check: a rejected query burns a time too
          IN  [raw |-> sz.raw, enc |-> sz.enc, renc |-> 0, err |-> ~acc, deliv |-> n, queued |-> n,
-              sent |-> 0, relayed |-> 0, maxmsg |-> IF acc THEN sz.enc ELSE 0, dclock |-> n]
+              sent |-> 0, relayed |-> 0, maxmsg |-> IF acc THEN sz.enc ELSE 0, dclock |-> 1]
     [] v.a = "respond" ->
          LET direct == RespWithin(v.cfg, sz.enc)
              tried  == direct /\ RelayTried(v)
